@@ -66,6 +66,25 @@ def _compose(ctx, ucores, mid, vcores):
     return R.transpose(perm)
 
 
+def _pre_ortho(cores, index, left, right):
+    """NumPy only: left-orthonormalise cores 0..index-2 and/or right-orthonormalise cores d-1..index of a core list (value unchanged)"""
+    cs = [np.array(c) for c in cores]
+    d = len(cs)
+    if left:
+        for i in range(0, index - 1):
+            r, m, n, r2 = cs[i].shape
+            q, rr = np.linalg.qr(cs[i].reshape(r * m * n, r2))
+            cs[i] = q.reshape(r, m, n, q.shape[1])
+            cs[i + 1] = np.tensordot(rr, cs[i + 1], axes=(1, 0))
+    if right:
+        for i in range(d - 1, index - 1, -1):
+            r, m, n, r2 = cs[i].shape
+            q, rr = np.linalg.qr(cs[i].reshape(r, m * n * r2).T)
+            cs[i] = q.T.reshape(q.shape[1], m, n, r2)
+            cs[i - 1] = np.tensordot(cs[i - 1], rr.T, axes=(3, 0))
+    return cs
+
+
 @scenario('C05', 'svd', _grid)
 def svd(ctx, shape, index, ortho_l, ortho_r, cplx):
     """t.svd(index): product, factor structure, unchanged input, overwrite variant"""
@@ -75,7 +94,12 @@ def svd(ctx, shape, index, ortho_l, ortho_r, cplx):
     box = {}
 
     def run():
-        t = TT(mk_cores(ctx, 'a', shape, cplx))
+        cs = mk_cores(ctx, 'a', shape, cplx)
+        if ctx.mode == 'conc':
+            # a switched-off flag documents "that side is orthonormal already": hand over an admissible representation of the same tensor
+            # (orthonormalised here with NumPy QR, independently of the code under test)
+            cs = _pre_ortho(cs, index, not ortho_l, not ortho_r)
+        t = TT(cs)
         u, s, v = t.svd(index, ortho_l=ortho_l, ortho_r=ortho_r)
         box.update(t=t, u=u, s=s, v=v)
         return _compose(ctx, u.cores, _diag(ctx, s), v.cores)
@@ -90,12 +114,12 @@ def svd(ctx, shape, index, ortho_l, ortho_r, cplx):
     if not ctx.sym:
         U = np.asarray(D.tt_full_open(ctx, u.cores)).reshape(-1, s.shape[0])
         V = np.asarray(D.tt_full_open(ctx, v.cores)).reshape(s.shape[0], -1)
-        if ortho_l:
+        if ctx.mode == 'conc' or ortho_l:
             ctx.eq('svd: u has orthonormal columns', U.conj().T @ U, np.eye(s.shape[0]), tol=1e-9)
-        if ortho_r:
+        if ctx.mode == 'conc' or ortho_r:
             ctx.eq('svd: v has orthonormal rows', V @ V.conj().T, np.eye(s.shape[0]), tol=1e-9)
         ctx.check('svd: s sorted and non-negative', bool(np.all(np.diff(s) <= 1e-12) and np.all(s >= 0)))
-        if ortho_l and ortho_r:
+        if ctx.mode == 'conc' or (ortho_l and ortho_r):
             sv = np.linalg.svd(np.asarray(ctx._num(ref)).reshape(int(np.prod(shape['rows'][:index])), -1), compute_uv=False)
             k = min(len(sv), len(s))
             ctx.eq('svd: singular values == those of the unfolding', np.sort(np.asarray(s))[::-1][:k], sv[:k], tol=1e-8)
@@ -152,18 +176,21 @@ def svd(ctx, shape, index, ortho_l, ortho_r, cplx):
         ctx.eq('svd(overwrite=True): self core %d == the factor cores' % i, t2.cores[i], (u2.cores + v2.cores)[i])
 
 
-@scenario('C05', 'pinv', lambda tier: [p for p in _grid(tier) if p['ortho_l'] == p['ortho_r']])
+@scenario('C05', 'pinv', _grid)
 def pinv(ctx, shape, index, ortho_l, ortho_r, cplx):
     """t.pinv(index) == u . diag(1/s) . v with the factors of t.svd(index); input unchanged"""
     TT = ctx.R.TT
     d = len(shape['rows'])
     ref = D.tt_full(ctx, mk_cores(ctx, 'a', shape, cplx))
     if not ctx.sym:
-        t = TT(mk_cores(ctx, 'a', shape, cplx))
+        cs = mk_cores(ctx, 'a', shape, cplx)
+        if ctx.mode == 'conc':
+            cs = _pre_ortho(cs, index, not ortho_l, not ortho_r)      # switched-off flags: admissible (already orthonormal) representation
+        t = TT(cs)
         p = t.pinv(index, ortho_l=ortho_l, ortho_r=ortho_r)
         meta_ok(ctx, 'pinv', p)
         ctx.eq('pinv: input value unchanged', t.full(), ref)
-        if ortho_l and ortho_r:
+        if ctx.mode == 'conc' or (ortho_l and ortho_r):
             M = np.asarray(ctx._num(ref)).reshape(int(np.prod(shape['rows'][:index])), -1)
             s = np.linalg.svd(M, compute_uv=False)
             if s[-1] / s[0] > 1e-6:
